@@ -210,6 +210,7 @@ func init() {
 		Run: func(e *fw.Env, r *fw.Result) {
 			pin()
 			corpusThorough = !e.Quick()
+			corpusMenus = true
 			files := stillCorpus(e.Seed, e.Repo)
 			k := 0
 			total := 0
